@@ -420,6 +420,7 @@ impl<'tcx> Cx<'tcx> {
                         o.set("impl_trait_ref", J::s(with_no_trimmed_paths!(format!("{}", tr.print_only_trait_path()))));
                     }
                     o.set("impl_generic", J::Bool(tcx.generics_of(parent).own_requires_monomorphization()));
+                    o.set("derived", J::Bool(tcx.is_automatically_derived(parent)));
                 }
                 DefKind::Trait => {
                     o.set("trait_default", J::s(with_no_trimmed_paths!(tcx.def_path_str(parent))));
@@ -1226,7 +1227,10 @@ pub fn emit_crate<'tcx>(tcx: TyCtxt<'tcx>, name: &str, out_dir: &str) {
                             ij.set("ty", J::s(ts(t)));
                         }
                         ty::AssocKind::Const { .. } => {
-                            let cty = tcx.type_of(it.def_id).instantiate_identity().skip_normalization();
+                            let mut cty = tcx.type_of(it.def_id).instantiate_identity().skip_normalization();
+                            if !generic {
+                                cty = tcx.normalize_erasing_regions(fm, Unnormalized::new_wip(cty));
+                            }
                             ij.set("ty", J::s(ts(cty)));
                             if !generic {
                                 if let Ok(val) = tcx.const_eval_poly(it.def_id) {
